@@ -3,9 +3,14 @@ import numpy as np
 
 
 def write_roms(path, rng, nx=8, ny=7, N=4, frame_times=(0, 3600, 7200), t0="2015-09-07 01:00:00", fields=("temp", "AKs"),
-               dtype="f8", mask=None, flat=None, values=None, write_grid=True):
+               dtype="f8", mask=None, flat=None, values=None, write_grid=True, time_unit="seconds", epoch=None, pack=None):
     """frame_times: seconds since t0.  Returns dict with the arrays written.
-    values: optional dict name -> array to use instead of random values."""
+    values: optional dict name -> array to use instead of random values.
+    time_unit / epoch: encode ocean_time as '<time_unit> since <epoch>' (seconds | hours | days; epoch defaults to t0);
+      the frames stay at t0 + frame_times.
+    pack: optional dict name -> (scale_factor, add_offset): that variable is stored as int16 with the CF packing
+      attributes (as in the shipped forcing.nc); out[name] then holds the *decoded* values raw*scale_factor + add_offset
+      (float64) and out['raw_' + name] the stored integers."""
     import netCDF4
     nt = len(frame_times)
     ds = netCDF4.Dataset(path, "w")
@@ -31,19 +36,40 @@ def write_roms(path, rng, nx=8, ny=7, N=4, frame_times=(0, 3600, 7200), t0="2015
         v = ds.createVariable("Cs_r", "f8", ("s_rho",)); v[:] = Cs_r
         v = ds.createVariable("Cs_w", "f8", ("s_w",)); v[:] = Cs_w
         out.update(hc=10.0, Cs_r=Cs_r, Cs_w=Cs_w)
-    tv = ds.createVariable("ocean_time", "f8", ("ocean_time",)); tv.units = "seconds since %s" % t0
-    tv[:] = np.array(frame_times, dtype=float)
+    if epoch is None and time_unit == "seconds":
+        tv = ds.createVariable("ocean_time", "f8", ("ocean_time",)); tv.units = "seconds since %s" % t0
+        tv[:] = np.array(frame_times, dtype=float)
+    else:
+        ep = t0 if epoch is None else epoch
+        base = int((np.datetime64(t0.replace(" ", "T"), "s") - np.datetime64(ep.replace(" ", "T"), "s")) / np.timedelta64(1, "s"))
+        per = {"seconds": 1, "hours": 3600, "days": 86400}[time_unit]
+        tv = ds.createVariable("ocean_time", "f8", ("ocean_time",)); tv.units = "%s since %s" % (time_unit, ep)
+        tv[:] = (base + np.array(frame_times, dtype=np.int64)).astype(float) / per
+    pack = pack or {}
+
+    def put(name, dims, arr):
+        if name in pack:
+            sf, off = pack[name]
+            raw = np.clip(np.rint((np.asarray(arr, dtype=float) - off) / sf), -32000, 32000).astype("i2")
+            var = ds.createVariable(name, "i2", dims)
+            var.set_auto_maskandscale(False)
+            var.scale_factor = float(sf); var.add_offset = float(off)
+            var[:] = raw
+            out["raw_" + name] = raw
+            return raw.astype(float) * float(sf) + float(off)
+        var = ds.createVariable(name, dtype, dims); var[:] = arr
+        return arr
     values = values or {}
     u = values.get("u", R.uniform(-0.5, 0.5, (nt, N, ny, nx - 1))).astype(dtype)
     v_ = values.get("v", R.uniform(-0.5, 0.5, (nt, N, ny - 1, nx))).astype(dtype)
-    uv = ds.createVariable("u", dtype, ("ocean_time", "s_rho", "eta_u", "xi_u")); uv[:] = u
-    vv = ds.createVariable("v", dtype, ("ocean_time", "s_rho", "eta_v", "xi_v")); vv[:] = v_
+    u = put("u", ("ocean_time", "s_rho", "eta_u", "xi_u"), u)
+    v_ = put("v", ("ocean_time", "s_rho", "eta_v", "xi_v"), v_)
     out["u"] = u; out["v"] = v_
     for name in fields:
         lev = "s_w" if name == "AKs" else "s_rho"
         n_l = N + 1 if name == "AKs" else N
         arr = values.get(name, R.uniform(0.0, 10.0, (nt, n_l, ny, nx)) if name != "AKs" else R.uniform(-1e-3, 1e-2, (nt, n_l, ny, nx))).astype(dtype)
-        fv = ds.createVariable(name, dtype, ("ocean_time", lev, "eta_rho", "xi_rho")); fv[:] = arr
+        arr = put(name, ("ocean_time", lev, "eta_rho", "xi_rho"), arr)
         out[name] = arr
     out["frame_times"] = list(frame_times)
     ds.close()
